@@ -58,7 +58,7 @@ TRUSTED = [
 ASSUMPTIONS = ["tree-shaped inputs (no shared or cyclic containers)", "threshold_to_diff_deeper at its default 0.33 or 0"]
 
 HEADER = ("From DD Require Import Base.PyStr Base.Value Diff.Tree Diff.DiffModel Hash.HashModel DiffIO.DiffIOModel "
-          "DiffIO.DiffIOShow Options.OptModel HashDiff.HashDiffModel HashDiff.HashDiffShow.\nLocal Open Scope Z_scope.")
+          "DiffIO.DiffIOShow Options.OptModel HashDiff.HashDiffModel HashDiff.HashDiffProofsLift HashDiff.HashDiffShow.\nLocal Open Scope Z_scope.")
 
 E = C11.E
 Decimal = decimal.Decimal
@@ -399,11 +399,11 @@ def dealias(a):
     if isinstance(a, bool):
         return a
     if isinstance(a, int):
-        return a + 1000
+        return a + 100003
     if isinstance(a, float) and a == a and not math.isinf(a):
-        return a + 2000.0
+        return a + 200004.0
     if isinstance(a, Decimal):
-        return a + 3000
+        return a + 300008
     return a
 
 
@@ -781,6 +781,7 @@ FIXED = [
     ({"A": 1, "a": 2}, {"A": 1, "a": 3}, _s(case=True)), ({"A": 1, "a": 2}, {"A": 1}, _s(case=True)), ({"A": 1, "a": 2}, {"a": 2, "A": 1}, _s(case=True)),
     ({"a": 1, b"a": 2}, {"a": 1, b"a": 3}, _s(strty=True)), ({1: 1, 1.5: 2}, {1: 1, 1.5: 3}, _s(numty=True)), ({1.5: 1, 2.5: 2}, {1.5: 1, 2.5: 3}, _s(numty=True, sig=0)),
     ([1, 1, 2], [1, 2, 2], _s()), ([1.5, 2.5], [1.5], _s(sig=0)), (["a", "A"], ["a"], _s(case=True)), (("a", "A"), ("a", "a"), _s(case=True)),
+    ({"a", "A"}, {"a"}, _s(case=True)), ({"a", b"a"}, {b"a"}, _s(strty=True)), (frozenset([3.5, 4]), frozenset([4]), _s(numty=True, sig=0)),
     ([[1, 2, 3], [1.0, 2.0, 3.0]], [[1, 2, 3]], _s(numty=True)), ([{"a": [1, 2]}, {"A": [2.0, 1.0]}], [{"a": [1, 2]}], _s(numty=True, case=True)),
     ({"__a": 1, "b": 2}, {"__a": 2, "b": 2}, _s()), ({"__A": 1, "b": 2}, {"__a": 2, "B": 2}, _s(case=True)),
 ]
@@ -815,6 +816,7 @@ def _task(args):
     he = hash_verdict(t1, t2, kw, rep)
     in_model = False
     expr = None
+    gexpr = None
     pairing = None
     if want_model and is_modelled(sp) and in_universe(t1, t2) and isinstance(he, bool) and not harmful_alias(t1, t2, kw):
         knobs = sp.get("knobs", {})
@@ -824,10 +826,11 @@ def _task(args):
             tbl, ok, _h = rec
             pairing = (sum(len(ji) for _p, ji, _x, _y in tbl), ok)
             cfg = CFG0 if knobs.get("threshold_to_diff_deeper") == 0 else CFG
+            gexpr = "lift_guard %s %s %s %s %s" % (cfg, coq_opts(sp), core.coq_bool(rep), V.to_coq(t1), V.to_coq(t2))
             expr = "run_c12 %s %s %s %s %s %s" % (cfg, coq_opts(sp), core.coq_bool(rep), C05.coq_pairs_table(tbl), V.to_coq(t1), V.to_coq(t2))
     else:
         dv, _ = diff_verdict(t1, t2, kw, rep, **sp.get("knobs", {}))
-    return t1l, t2l, sp, rep, he, dv, in_model, expr, pairing
+    return t1l, t2l, sp, rep, he, dv, in_model, (expr, gexpr), pairing
 
 
 def describe(he, dv):
@@ -842,7 +845,7 @@ def evaluate(ctx, pool, jobs, label):
     args = [(lit(t1), lit(t2), sp, rep, wm) for _f, t1, t2, sp, rep, wm in jobs]
     res = pool.map(_task, args, chunksize=8)
     cases = []
-    for (fam, _a, _b, _sp, _r, _wm), (t1l, t2l, sp, rep, he, dv, in_model, expr, pairing) in zip(jobs, res):
+    for (fam, _a, _b, _sp, _r, _wm), (t1l, t2l, sp, rep, he, dv, in_model, (expr, gexpr), pairing) in zip(jobs, res):
         nm = name_of(sp)
         ok = agree(he, dv)
         case = {"t1": t1l, "t2": t2l, "spec": sp, "options": nm, "rep": rep, "hash_eq": he, "diff": dv, "family": fam}
@@ -860,13 +863,40 @@ def evaluate(ctx, pool, jobs, label):
             ctx.count("%s:oracle_fail_%s" % (label, r))
         if in_model:
             exp_dv = "raised" if dv.startswith("EXC:") else dv
-            cases.append((expr, [he, exp_dv], case))
+            cases.append((expr, [he, exp_dv], dict(case, guard_expr=gexpr, agree=ok)))
             ctx.count("model:paired_levels" if pairing[0] else "model:no_pairs")
             if not pairing[1]:
                 ctx.break_("correspondence", dict(case, what="recorded pairing is not a symmetric partial injection"))
         elif is_modelled(sp) and label == "model":
             ctx.count("model:outside(universe/alias/exception)")
     return cases
+
+
+def guard_replay(ctx, cases):
+    """C12_hash_iff_diff_partial replayed on the implementation: the boolean guard of the theorem
+    is evaluated in Coq on every model case; inside the guard the two real engines must agree."""
+    if not cases:
+        return
+    inside = 0
+    for i in range(0, len(cases), 250):
+        chunk = cases[i:i + 250]
+        txt = ctx.coq_eval("c12_guards_%d" % i, HEADER, "run_c12_guards [%s]" % "; ".join(t["guard_expr"] for _e, _x, t in chunk))
+        if txt is None:
+            return
+        flags = txt.strip()
+        if len(flags) != len(chunk):
+            ctx.break_("correspondence", {"name": "c12_guards", "error": "expected %d guard values, got %d" % (len(chunk), len(flags))})
+            return
+        for ch, (_e, _x, t) in zip(flags, chunk):
+            if ch == "T":
+                inside += 1
+                ctx.count("theorem_guard:inside:%s" % ("hash_eq" if t["hash_eq"] is True else "hash_ne"))
+                if t["agree"] is not True:
+                    case = {k: v for k, v in t.items() if k not in ("guard_expr", "agree")}
+                    ctx.break_("correspondence", dict(case, name="C12_hash_iff_diff_partial", what="inside lift_guard the implementation's two engines disagree"))
+            else:
+                ctx.count("theorem_guard:outside")
+    ctx.note("theorem_replayed_on_implementation", "C12_hash_iff_diff_partial: %d of %d model cases are inside lift_guard; on all of them DeepHash equality == DeepDiff emptiness" % (inside, len(cases)))
 
 
 # --------------------------------------------------------------------------
@@ -939,6 +969,11 @@ WITNESSES = [
     ("C12_bytes_key_case_refuted", {b"A": 1}, {b"a": 1}, _s(case=True), False, (True, "nonempty")),
     ("C12_sig_keys_refuted", {1.5: 1}, {2.5: 1}, _s(sig=0), False, (True, "nonempty")),
     ("C12_key_collision_refuted", {"A": 1, "a": 2}, {"A": 1, "a": 3}, _s(case=True), False, (False, "empty")),
+    ("C12_key_collision_refuted(order)", {"A": 1, "a": 2}, {"a": 2, "A": 1}, _s(case=True), False, (True, "nonempty")),
+    ("C12_set_member_collision_refuted", {"a", "A"}, {"a"}, _s(case=True), True, (False, "empty")),
+    ("C12_key_alias_refuted", {1: "x"}, {1.0: "x"}, _s(sig=2), False, (False, "empty")),
+    ("C12_tag_refuted(strty)", 1, b"int:1", _s(strty=True), False, (True, "nonempty")),
+    ("C12_bool_int_list_refuted(pairing off)", [True], [1], dict(_s(numty=True), knobs={"cutoff_intersection_for_pairs": 0}), False, (False, "nonempty")),
 ]
 
 
@@ -947,7 +982,7 @@ def replay_witnesses(ctx):
     for name, t1, t2, sp, rep, (he_x, dv_x) in WITNESSES:
         kw = kwargs_of(sp)
         he = hash_verdict(t1, t2, kw, rep)
-        dv = diff_verdict(t1, t2, kw, rep)[0]
+        dv = diff_verdict(t1, t2, kw, rep, **sp.get("knobs", {}))[0]
         if (he, dv) != (he_x, dv_x):
             ctx.break_("correspondence", {"name": name, "detail": "witness %s vs %s under %s: the implementation now gives hash_eq=%r diff=%s (the model says %r / %s): the model is stale" % (
                 lit(t1), lit(t2), name_of(sp), he, dv, he_x, dv_x)})
@@ -993,6 +1028,8 @@ def run(ctx):
     with mp.get_context("fork").Pool(core.NCPU) as pool:
         cases = evaluate(ctx, pool, jobs, "model")
         evaluate(ctx, pool, rich, "rich")
+    guard_replay(ctx, cases)
+    cases = [(e, x, {k: v for k, v in t.items() if k != "guard_expr"}) for e, x, t in cases]
     ctx.coq_cases("c12_pairs", HEADER, cases, shard=60, label="both_engines_on_pairs")
     atom_level(ctx, mspecs)
     pools(ctx, mspecs if ctx.thorough else rng.sample(mspecs, 6))
